@@ -181,7 +181,7 @@ Definition fragments_only_syntax_errors (bad : list (str * nat)) : Prop := foral
 
 Lemma finish_terms_ok fixed intercept f av pv ts0 :
   match finish_terms fixed intercept f av pv ts0 with
-  | inr (EInternal n) => n = 5%nat \/ (n = 6%nat /\ intercept = false)
+  | inr (EInternal n) => n = 5%nat
   | inr EPySyntax => False
   | _ => True
   end.
@@ -191,17 +191,17 @@ Proof.
   destruct (to_ast fixed f (get_tokens intercept ts0)) as [[a|]|e]; auto.
   - match goal with |- context [eval ?fu ?cx a] => pose proof (eval_ok_fuel cx fu a) as He; destruct (eval fu cx a) as [v|e] end.
     + destruct (match v with VSide s => check_side s | VTwo l r => check_side l && check_side r | VMulti => true end); auto.
-    + destruct e as [|n|]; auto. cbn in He. destruct He as [He|[He Hu]]; auto. right. split; auto.
-      cbn in Hu. destruct intercept; auto. destruct (find_rhs _ _ _); discriminate.
+    + destruct e as [|n|]; auto. cbn in He. destruct He as [He|[He Hu]]; auto.
+      exfalso. cbn in Hu. destruct (find_rhs _ _ _); discriminate.
   - destruct e; auto; contradiction.
 Qed.
 
 (* Internal Python exceptions never escape from parsing, for every string, every configuration and every classifier,
-   except (i) the stuck marker 5 and (ii) KeyError for '.' under include_intercept=False (a recorded finding). *)
+   except the stuck marker 5 (ill-sorted operands, not reachable through the implementation's operators). *)
 Theorem get_terms_internal_errors fixed intercept f av bad pn pv cl s n :
   fragments_only_syntax_errors bad ->
   get_terms fixed intercept f av bad pn pv cl s = inr (EInternal n) ->
-  n = 5%nat \/ (n = 6%nat /\ intercept = false).
+  n = 5%nat.
 Proof.
   intros Hbad. unfold get_terms.
   destruct (tokenize_partial cl s) as [toks lexerr].
@@ -214,13 +214,7 @@ Proof.
   { unfold terminal. intros e. destruct pyerr as [e'|]; [intro H; inversion H; subst; left; apply Hpy; reflexivity|].
     destruct lexerr; intro H; inversion H; auto. }
   destruct terminal as [e|] eqn:Et.
-  - destruct (Ht e eq_refl) as [-> | ->].
-    + destruct intercept; [discriminate|].
-      match goal with |- context [mrun ?a ?b ?c ?d] => pose proof (mrun_clean a b c d) as [Hc _]; destruct (mrun a b c d) as [x|e'] end; [discriminate|].
-      intro H; inversion H; subst. contradiction.
-    + destruct intercept; [discriminate|].
-      match goal with |- context [mrun ?a ?b ?c ?d] => pose proof (mrun_clean a b c d) as [Hc _]; destruct (mrun a b c d) as [x|e'] end; [discriminate|].
-      intro H; inversion H; subst. contradiction.
+  - destruct (Ht e eq_refl) as [-> | ->]; discriminate.
   - intro H. pose proof (finish_terms_ok fixed intercept f av pv (map (normalise pn) ts0')) as Hf. rewrite H in Hf. exact Hf.
 Qed.
 
@@ -237,12 +231,8 @@ Proof.
     destruct (py_err_in _ _ _ Hp) as (frag & Hin & _).
     destruct c.
     + intros _. exists frag. exact Hin.
-    + subst e. destruct intercept; [discriminate|].
-      match goal with |- context [mrun ?a ?b ?c ?d] => pose proof (mrun_clean a b c d) as [_ Hc]; destruct (mrun a b c d) as [x|e'] end; [discriminate|].
-      intro H; inversion H; subst. contradiction.
+    + subst e. discriminate.
   - destruct lexerr.
-    + destruct intercept; [discriminate|].
-      match goal with |- context [mrun ?a ?b ?c ?d] => pose proof (mrun_clean a b c d) as [_ Hc]; destruct (mrun a b c d) as [x|e'] end; [discriminate|].
-      intro H; inversion H; subst. contradiction.
+    + discriminate.
     + intro H. pose proof (finish_terms_ok fixed intercept f av pv (map (normalise pn) ts0')) as Hf. rewrite H in Hf. contradiction.
 Qed.
